@@ -225,6 +225,15 @@ FMT_SEP = {"csv": b",", "csvlite": b",", "csv_opts": b",", "tsv": b"\t", "dkvp":
            "usv": "\u241f".encode(), "asv": b"\x1f", "markdown": b"|", "pprint_barred": b"|", "dkvpx": b","}
 
 
+def sepline(r, data, fmt, k):
+    """A line made of field separators only, with fewer, as many or more fields than its neighbours."""
+    sep = FMT_SEP[fmt] if fmt in FMT_SEP and r.chance(0.8) else r.choice([b",", b"\t", b" ", b";", b"|", b"=", b":"])
+    line = sep * r.choice([1, 2, 3, 4, 5, 8, 13])
+    pos = data.find(b"\n", k)
+    pos = len(data) if pos < 0 else pos + 1
+    return data[:pos] + line + r.choice([b"\n", b"\n", b"\r\n", b""]) + data[pos:], "sepline@%d %r" % (pos, line)
+
+
 def mutate(r, data, fmt=None):
     kind = r.choice(["truncate", "flip", "overwrite", "insert", "delete", "duplicate", "overwrite", "insert", "sepline", "mbline"])
     if not data:
@@ -239,12 +248,7 @@ def mutate(r, data, fmt=None):
         start = data.rfind(b"\n", 0, k) + 1 if r.chance(0.6) else k
         return data[:start] + mb + data[end:], "mbline@%d+%d" % (start, len(mb))
     if kind == "sepline":
-        # a line made of field separators only, with fewer, as many or more fields than its neighbours
-        sep = FMT_SEP[fmt] if fmt in FMT_SEP and r.chance(0.8) else r.choice([b",", b"\t", b" ", b";", b"|", b"=", b":"])
-        line = sep * r.choice([1, 2, 3, 4, 5, 8, 13])
-        pos = data.find(b"\n", k)
-        pos = len(data) if pos < 0 else pos + 1
-        return data[:pos] + line + r.choice([b"\n", b"\n", b"\r\n", b""]) + data[pos:], "sepline@%d %r" % (pos, line)
+        return sepline(r, data, fmt, k)
     if kind == "truncate":
         return data[:k], "truncate@%d" % k
     if kind == "flip":
@@ -282,10 +286,10 @@ def build_verbs_case(r, tier):
     fmt = r.choice(["dkvp", "json"])
     text = gen.to_dkvp(recs) if fmt == "dkvp" else gen.to_json([rec for rec in recs])
     vs = [r.choice(gen.BY_TAG[r.choice(["S", "S", "N", "N", "P"])])(r) for _ in range(r.randint(1, 3))]
-    if r.chance(0.25):
+    if r.chance(0.4):
         # stages of the same kind side by side (regex, formatting, grouping): what they share behind the scenes is used
         # by several goroutines at once
-        pool = r.choice(gen.SAME_KIND)
+        pool = gen.SAME_KIND[1] if r.chance(0.5) else r.choice(gen.SAME_KIND)
         vs = [r.choice(pool)(r) for _ in range(r.randint(2, 3))]
     vs = [v for v in vs if v[0] not in ("seqgen", "tee", "split")] or [["cat"]]
     return {"kind": "verbs", "fmt": "verbs-" + fmt, "flags": ["--ijson"] if fmt == "json" else [], "data": text, "name": "in.dat", "mutations": [], "faults": [],
@@ -326,6 +330,10 @@ def build_case(r, tier):
     orig = data
     for _ in range(nm):
         data, what = mutate(r, data, fmt)
+        muts.append(what)
+    if fmt in FMT_SEP and data and (any("implicit" in f or "ragged" in f or "headerless" in f for f in flags) and r.chance(0.4) or r.chance(0.03)):
+        # header handling is where a line's field count matters most: separator-only lines there more often
+        data, what = sepline(r, data, fmt, r.below(len(data)))
         muts.append(what)
     big = False
     if fmt in ("json", "jsonl", "yaml") and r.chance(0.06):
